@@ -392,3 +392,88 @@ var _ = sys.ExitCodeContextCanceled
 //@   ensures[only-constant-opcodes] err == nil ==> expr.Opcode == OpcodeI32Const || expr.Opcode == OpcodeI64Const || expr.Opcode == OpcodeF32Const || expr.Opcode == OpcodeF64Const || expr.Opcode == OpcodeGlobalGet || expr.Opcode == OpcodeRefNull || expr.Opcode == OpcodeRefFunc || expr.Opcode == OpcodeVecV128Const
 //@   ensures[global-get-only-immutable] err == nil && expr.Opcode == OpcodeGlobalGet ==> exists k int :: 0 <= k && k < len(globals) && !globals[k].Mutable && globals[k].ValType == expectedType
 //@   modifies nothing
+
+// Index-space validation: what the engines index without checks afterwards.
+func constOpcode(op Opcode) bool {
+	return op == OpcodeI32Const || op == OpcodeI64Const || op == OpcodeF32Const || op == OpcodeF64Const ||
+		op == OpcodeGlobalGet || op == OpcodeRefNull || op == OpcodeRefFunc || op == OpcodeVecV128Const
+}
+
+func exportOK(e *Export, nfuncs, nglobals, ntables int, memory *Memory) bool {
+	switch e.Type {
+	case ExternTypeFunc:
+		return int(e.Index) < nfuncs
+	case ExternTypeGlobal:
+		return int(e.Index) < nglobals
+	case ExternTypeMemory:
+		return e.Index == 0 && memory != nil
+	case ExternTypeTable:
+		return int(e.Index) < ntables
+	}
+	return true
+}
+
+//@ func (m *Module) validateExports(enabledFeatures api.CoreFeatures, functions []Index, globals []GlobalType, memory *Memory, tables []Table) error
+//@   requires len(functions) < 1<<32 && len(globals) < 1<<32 && len(tables) < 1<<32
+//@   ensures[every-export-in-range] r0 == nil ==> forall i int :: 0 <= i && i < len(m.ExportSection) ==> exportOK(&m.ExportSection[i], len(functions), len(globals), len(tables), memory)
+//@   modifies nothing
+//@   loop 0 (rangeindex int)
+//@     invariant forall i int :: 0 <= i && i <= rangeindex && i < len(m.ExportSection) ==> exportOK(&m.ExportSection[i], len(functions), len(globals), len(tables), memory)
+
+//@ func (m *Module) validateImports(enabledFeatures api.CoreFeatures) error
+//@   ensures[function-imports-typed] r0 == nil ==> forall i int :: 0 <= i && i < len(m.ImportSection) ==> m.ImportSection[i].Module != "" && (m.ImportSection[i].Type == ExternTypeFunc ==> int(m.ImportSection[i].DescFunc) < len(m.TypeSection))
+//@   modifies nothing
+//@   loop 0 (rangeindex int)
+//@     invariant forall i int :: 0 <= i && i <= rangeindex && i < len(m.ImportSection) ==> m.ImportSection[i].Module != "" && (m.ImportSection[i].Type == ExternTypeFunc ==> int(m.ImportSection[i].DescFunc) < len(m.TypeSection))
+
+//@ func (m *Module) validateGlobals(globals []GlobalType, numFuncts, maxGlobals uint32) error
+//@   requires int(m.ImportGlobalCount) <= len(globals) && len(globals) < 1<<32
+//@   ensures[count-limited] r0 == nil ==> uint32(len(globals)) <= maxGlobals
+//@   ensures[initialisers-constant] r0 == nil ==> forall i int :: 0 <= i && i < len(m.GlobalSection) ==> constOpcode(m.GlobalSection[i].Init.Opcode)
+//@   modifies nothing
+//@   loop 0 (rangeindex int)
+//@     invariant forall i int :: 0 <= i && i <= rangeindex && i < len(m.GlobalSection) ==> constOpcode(m.GlobalSection[i].Init.Opcode)
+
+//@ func (m *Module) validateMemory(memory *Memory, globals []GlobalType, _ api.CoreFeatures) error
+//@   requires int(m.ImportGlobalCount) <= len(globals)
+//@   ensures[active-data-offsets-constant] r0 == nil ==> forall i int :: 0 <= i && i < len(m.DataSection) && !m.DataSection[i].IsPassive() ==> constOpcode(m.DataSection[i].OffsetExpression.Opcode)
+//@   modifies nothing
+//@   loop 1 (rangeindex int)
+//@     invariant forall i int :: 0 <= i && i <= rangeindex && i < len(m.DataSection) && !m.DataSection[i].IsPassive() ==> constOpcode(m.DataSection[i].OffsetExpression.Opcode)
+
+//@ func (m *Module) validateDataCountSection() (err error)
+//@   ensures[count-matches] err == nil && m.DataCountSection != nil ==> int(*m.DataCountSection) == len(m.DataSection)
+//@   modifies nothing
+
+// Element segments: every non-null initialiser names an existing function or global, and an active
+// segment names an existing table of the same reference type with a constant offset - what
+// applyElements / buildElementInstances index without checks.
+func elemEntryOK(init Index, elemType RefType, funcCount, globalsCount uint32) bool {
+	if init == ElementInitNullReference {
+		return true
+	}
+	if init&elementInitImportedGlobalReferenceType == elementInitImportedGlobalReferenceType {
+		return init&^elementInitImportedGlobalReferenceType < globalsCount
+	}
+	return elemType != RefTypeExternref && init < funcCount
+}
+
+func elemTargetOK(e *ElementSegment, tables []Table) bool {
+	return !e.IsActive() || (int(e.TableIndex) < len(tables) && tables[e.TableIndex].Type == e.Type &&
+		(e.OffsetExpr.Opcode == OpcodeGlobalGet || e.OffsetExpr.Opcode == OpcodeI32Const))
+}
+
+func funcCountOf(m *Module) uint32    { return m.ImportFunctionCount + uint32(len(m.FunctionSection)) }
+func globalsCountOf(m *Module) uint32 { return m.ImportGlobalCount + uint32(len(m.GlobalSection)) }
+
+//@ func (m *Module) validateTable(enabledFeatures api.CoreFeatures, tables []Table, maximumTableIndex uint32) error
+//@   ensures[table-count-limited] r0 == nil ==> len(tables) <= int(maximumTableIndex)
+//@   ensures[segment-targets-exist] r0 == nil ==> forall i int :: 0 <= i && i < len(m.ElementSection) ==> elemTargetOK(&m.ElementSection[i], tables)
+//@   modifies nothing
+//@   loop 0 (rangeindex int)
+//@     invariant forall i int :: 0 <= i && i <= rangeindex && i < len(m.ElementSection) ==> elemTargetOK(&m.ElementSection[i], tables)
+// (inner loop: every entry seen so far is in range - checked as the loop's own invariant; exporting it
+// through the outer loop as a forall-forall postcondition is provable but takes minutes, so it is not claimed)
+//@   loop 1 (elem *ElementSegment, funcCount uint32, globalsCount uint32, rangeindex int)
+//@     invariant funcCount == funcCountOf(m) && globalsCount == globalsCountOf(m) && elem != nil
+//@     invariant forall e int :: 0 <= e && e <= rangeindex && e < len(elem.Init) ==> elemEntryOK(elem.Init[e], elem.Type, funcCount, globalsCount)
